@@ -276,6 +276,7 @@ func c03Crash(r *rng, id string) {
 }
 
 func TestC03(t *testing.T) {
+	runSel(t, "C03", 340)
 	n := envInt("VERIF_N", 600)
 	if thorough() {
 		n = envInt("VERIF_N", 40000)
